@@ -131,6 +131,11 @@ class Harness:
             it = EMGTrack(text, a[:, 0].copy()) if self.kind == "EMG" else MarkerTrack(text, a.copy())
             it.data = it.data[: NF - 1] if NF > 1 else np.concatenate([it.data, it.data])
             return it
+        if not good and t % 5 == 4 and self.kind in ("EMG", "Data3D") and NF > 0:
+            # an item of the right kind whose data is a plain nested list (no shape): whatever
+            # exception that provokes, the block must stay as it was
+            rows = [[float(t + r), 1.0, 2.0] for r in range(NF)]
+            return EMGTrack(text, [r[0] for r in rows]) if self.kind == "EMG" else MarkerTrack(text, rows)
         if not good and t % 5 == 1 and self.kind in ("EMG", "Data3D", "Force"):
             # an item of ANOTHER block family with exactly the right number of frames
             a = np.arange(NF * 3, dtype="<f4").reshape(NF, 3)
@@ -161,7 +166,17 @@ class Harness:
             f[:, 0] = lab + 10 * t  # the 'label' of an unlabelled item lives in its data
             return ForcePlatformData(base[:, 0:2].copy(), f, base[:, 5].copy())
         if k == "Events":
-            return Event(text, [] if t % 3 == 0 else [float(t)], EventsDataType.singleEvent)
+            if t % 3 == 0:
+                return Event(text, [], EventsDataType.singleEvent)
+            if t % 6 == 1:
+                # several events are built from ONE float64 array of the caller: each must own its values
+                if getattr(self, "ev_src", None) is None:
+                    self.ev_src = np.array([4242.0], dtype="<f8")
+                return Event(text, self.ev_src, EventsDataType.singleEvent)
+            ev = Event(text, [float(t)], EventsDataType.singleEvent)
+            if t % 6 == 2:
+                ev.values = np.array([float(t)], dtype="<f8")     # values replaced after construction, other dtype
+            return ev
         if k == "Optical":
             return OpticalChannelData(t, "lens", "type", text, CameraViewPort(np.array([0, t], "<i4"), np.array([1, 2], "<i4")))
         raise ValueError(k)
@@ -307,7 +322,14 @@ class Harness:
         raw = self.encode_bytes(b)
         self.tagc += 1
         if self.tagc % 2 == 0 or self.work is None:
-            return type(b)._build(io.BytesIO(raw), b.format.value), type(b)._build(io.BytesIO(raw), b.format.value)
+            # (numpy.empty promises nothing about the memory it hands out: two different fills make a
+            # decoder that leaves part of an array unwritten visible as two different results)
+            from .codec import Poison
+            with Poison(0x41):
+                first = type(b)._build(io.BytesIO(raw), b.format.value)
+            with Poison(0xC3):
+                second = type(b)._build(io.BytesIO(raw), b.format.value)
+            return first, second
         from basictdf import Tdf
         from basictdf.tdfBlock import BlockType
         path = os.path.join(self.work, f"twin{self.tagc}.tdf")
